@@ -16,7 +16,8 @@ from vlib import runner as R
 from vlib.prog import Program
 
 NCLS = 4
-HIER = {"classes": [{"bases": []} for _ in range(NCLS)]}
+# K4 is the class of the "router" method that forwards calls from inside a method body
+HIER = {"classes": [{"bases": []} for _ in range(NCLS + 1)]}
 
 
 def case_strategy():
@@ -79,7 +80,7 @@ def case_strategy():
             calls.append({"target": t["id"], "n": n, "kws": sorted(set(kws)), "bykw": bykw, "skip_first": skip_first,
                           "raise": draw(st.integers(0, 5)) == 0,
                           "via": draw(st.sampled_from(["dispatch", "dispatch", "ovld"]))})
-        return {"methods": methods, "calls": calls, "host": host, "uniform": uniform}
+        return {"methods": methods, "calls": calls, "host": host, "uniform": uniform, "router": draw(st.integers(0, 2)) > 0}
 
     return _case()
 
@@ -94,11 +95,82 @@ class Arg:
         return f"<arg {self.tag}>"
 
 
+def call_shape(c, t):
+    """(number of positionals actually passed, sorted keyword names) of a probed call - as run_case builds it"""
+    n = c["n"]
+    kws = set(c["kws"])
+    bykw = c.get("bykw", 0)
+    npass = n
+    if bykw and n <= len(t["pos"]):
+        names = [t["pos"][j]["name"] for j in range(n - bykw, n)]
+        if not (any(t["pos"][j].get("posonly") for j in range(n - bykw, n)) or set(names) & kws):
+            kws |= set(names)
+            npass = n - bykw
+            if c.get("skip_first") and npass and t["pos"][npass - 1].get("opt"):
+                npass -= 1
+    return (npass, tuple(sorted(kws)))
+
+
+def forward(res, prog, env, router, c, t, call_args, call_kws, out):
+    direct_log = list(prog.H.log)
+    shape = (len(call_args), tuple(sorted(call_kws)))
+    if shape not in router["_shapes"]:
+        return
+    base = router["_shapes"].index(shape) * 4
+    rargs = [env[f"K{NCLS}"]()] + [Arg("r")] * (len(router["pos"]) - 1)
+    norm = lambda k: "nomethod" if k == "rejected" else k  # noqa: E731
+    for off, label in enumerate(("recurse(args)", "recurse(*args, **kw)", "call_next(args)", "call_next(*args, **kw)")):
+        o2 = prog.call(rargs, {}, script=[["site", base + off, "raw", {}]], raw_site_args=call_args, raw_site_kwargs=call_kws)
+        log2 = list(prog.H.log)
+        res.label("forwarded:" + label.split("(")[0] + ("*" if "*" in label else ""))
+        if norm(o2.kind) != norm(out.kind):
+            res.fail(f"call shape ({len(call_args)} positionals, keywords {sorted(call_kws)}) for m{t['id']} forwarded from a "
+                     f"method body with {label}: {o2.brief()} - the direct call gives {out.brief()}",
+                     "C03:forwarded-shape-differs")
+            return
+        if out.kind == "ok" and direct_log and len(log2) >= 2:
+            (m1, loc1), (m2, loc2) = direct_log[0], log2[1]
+            bad = m1 != m2 or any(loc1.get(k) is not loc2.get(k) for k in loc1 if k != "self"
+                                  and not isinstance(loc1.get(k), type(prog.defaults and next(iter(prog.defaults.values()), None))))
+            if m1 != m2 or any((loc2.get(k) is not v) for k, v in call_kws.items()):
+                res.fail(f"call shape ({len(call_args)} positionals, keywords {sorted(call_kws)}) forwarded with {label}: ran "
+                         f"m{m2} with {loc2}, the direct call ran m{m1} with {loc1}", "C03:forwarded-shape-differs")
+                return
+
+
 def run_case(spec):
     res = R.CaseResult()
     env = H.build(HIER)
     methods = spec["methods"]
-    prog = Program({"hier": HIER, "methods": methods, "host": spec["host"]}, env=env)
+    router = None
+    if spec.get("router") and any(m["pos"] for m in methods):
+        # a method on an unrelated class whose body re-issues each probed call shape with recurse(...) - written
+        # statically and with * / ** - and call_next(...): the shape must be served exactly like the direct call
+        maxp0 = max(len(m["pos"]) for m in methods)
+        rid = max(m["id"] for m in methods) + 1
+
+        def pname(j):
+            names = {m["pos"][j]["name"] for m in methods if j < len(m["pos"])}
+            return names.pop() if len(names) == 1 else f"p{rid}_{j}"
+
+        rpos = [{"name": pname(0), "ann": ["cls", f"K{NCLS}"], "opt": False}]
+        rpos += [{"name": pname(j), "ann": ["obj"], "opt": False} for j in range(1, maxp0)]
+        if any(p.get("posonly") for m in methods for p in m["pos"]):
+            for p in rpos:
+                p["posonly"] = True
+        router = {"id": rid, "pos": rpos, "kw": [], "prio": 50, "sites": []}
+        shapes = []
+        for c in spec["calls"]:
+            t0 = next(m for m in methods if m["id"] == c["target"])
+            sh = call_shape(c, t0)
+            if sh not in shapes:
+                shapes.append(sh)
+        for npos_, kwn in shapes[:6]:
+            for fn in ("recurse", "call_next"):
+                router["sites"].append({"fn": fn, "npos": npos_, "kws": list(kwn)})
+                router["sites"].append({"fn": fn, "npos": npos_, "kws": list(kwn), "star": True})
+        router["_shapes"] = shapes[:6]
+    prog = Program({"hier": HIER, "methods": methods + ([router] if router else []), "host": spec["host"]}, env=env)
     try:
         maxp = max((len(m["pos"]) for m in methods), default=0)
         n_opt_pos = len([j for j in range(maxp)
@@ -147,6 +219,10 @@ def run_case(spec):
                 bykw = 0
             via = prog.ov if (c.get("via") == "ovld" and spec["host"] == "func") else None
             out = prog.call(call_args, call_kws, script=[["raise"]] if c.get("raise") else None, via=via)
+            if router is not None and not c.get("raise") and via is None and out.kind not in ("other", "badcall"):
+                keep = (prog.H.log, prog.H.results, prog.H.raised)
+                forward(res, prog, env, router, c, t, call_args, call_kws, out)
+                prog.H.log, prog.H.results, prog.H.raised = keep
             omitted = n < len(t["pos"]) or any(p["name"] not in kws for p in t["kw"])
             if (omitted or kws) and len(methods) >= 2:
                 res.nontrivial = True
